@@ -212,8 +212,9 @@ def run(tape, ctx, item=None):
     trailer_extra = {b"Encrypt": h.encrypt_dict(explicit_length=t.coin(50, 100, "cfg.explicit"))}
     if cfg["docid"] is not None:
         trailer_extra[b"ID"] = [Str(cfg["docid"]), Str(cfg["docid"])]
+    narrow = form == "stream" and t.coin(35, 100, "w3.zero")  # /W [1 n 0] where every generation and index is 0
     plain_pdf = docs.build_pdf(objects, 1, info=7, form=form, pack=pack, gens=gens).getvalue()
-    fw = docs.build_pdf(objects, 1, info=7, form=form, pack=pack, gens=gens, encrypt=h, trailer_extra=trailer_extra)
+    fw = docs.build_pdf(objects, 1, info=7, form=form, pack=pack, gens=gens, encrypt=h, trailer_extra=trailer_extra, narrow_w3=narrow)
     enc_pdf = fw.getvalue()
     cuts = list(fw.cuts)
     lost_xref = form == "table" and t.coin(15, 100, "lostxref")
